@@ -32,8 +32,37 @@ static std::string name_text(const ipr::Name& n)
    return "<not-an-identifier>";
 }
 
+// Strings that no string pool made: the String interface is open, and impl::String has public constructors
+struct Client_text final : impl::Node<ipr::String> {
+   std::u8string text;
+   explicit Client_text(std::u8string t) : text{ std::move(t) } { }
+   util::word_view characters() const final { return text; }
+};
+
 static void describe(impl::Lexicon& lex, int which, std::map<std::string, const void*>& addr)
 {
+   // routes from a spelling carried by a String the client made itself (the library decides by the characters)
+   {
+      int bad = 0, total = 0;
+      std::string firstbad;
+      for (auto& r : rows) {
+         const ipr::Type& t = (lex.*r.acc)();
+         auto spelling = name_text(t.name());
+         std::u8string w(reinterpret_cast<const char8_t*>(spelling.data()), spelling.size());
+         Client_text mine { w };
+         impl::String direct { util::word_view(w) };
+         for (const ipr::String* s : { static_cast<const ipr::String*>(&mine), static_cast<const ipr::String*>(&direct) }) {
+            ++total;
+            auto& id = lex.get_identifier(*s);
+            if (not physically_same(id, t.name()) or not physically_same(lex.get_as_type(id), t)) { ++bad; if (firstbad.empty()) firstbad = r.name; }
+         }
+      }
+      std::u8string d = u8"default";
+      Client_text mine { d };
+      ++total;
+      if (not physically_same(lex.get_label(lex.get_identifier(mine)), lex.default_value())) { ++bad; if (firstbad.empty()) firstbad = "default_value"; }
+      std::printf("L%d client_strings routes=%d look_alikes=%d first=%s\n", which, total, bad, firstbad.empty() ? "-" : firstbad.c_str());
+   }
    for (auto& r : rows) {
       const ipr::Type& t = (lex.*r.acc)();
       auto at = util::view<ipr::As_type>(t);
